@@ -197,10 +197,20 @@ FAULTS = ['enospc', 'eio', 'eacces', 'vanish', 'cancel']
 FAULT_AT = [1, 2, 3, 4, 5, 6, 7, 8, 10, 12, 15, 20, 25, 30, 40]
 # (the last one lives in the decoy directory under a name that also exists, relative to the package directory, in the
 # repository: an entry point that resolves a relative input path after changing directory reads the wrong file)
-SLOT_PATHS = ['in/req0.txt', 'in dir/req 1.txt', 'deep/a/b/req2.txt', 'decoy/Examples/example1.txt']
+SLOT_PATHS = ['in/req0.txt', 'in dir/req 1.txt', 'deep/a/b/req2.txt', 'decoy/Examples/example1.txt',
+              # unusual-but-legal names: upper-case extension, no extension, non-ASCII
+              'in/REQ4.TXT', 'in/noext', 'in/\u00fcn\u00ef \u00e7\u00f8d\u00e9/r\u00e9q 6.txt']
+# how the text of a request is laid out in its file (the same parameters, another spelling of the file)
+FMTS = [None, None, None, None, None, 'crlf', 'nofinalnl', 'trailing', 'bom', 'comments', 'tabs']
 
 
 def gen_request(cs, templates, kind=None, allow_slow=False, fail=None, neighbour_of=None):
+    req = _gen_request(cs, templates, kind, allow_slow, fail, neighbour_of)
+    req['fmt'] = FMTS[cs.choose(len(FMTS), 'fmt')] if neighbour_of is None or cs.choose(3, 'nfmt') == 2 else neighbour_of.get('fmt')
+    return req
+
+
+def _gen_request(cs, templates, kind=None, allow_slow=False, fail=None, neighbour_of=None):
     if neighbour_of is not None:
         # same configuration family, exactly one more parameter moved: the pairs that expose incomplete memo keys
         ti = neighbour_of['template']
@@ -243,7 +253,35 @@ def request_text(req, templates):
         s += f'{k_}, {v}\n'
     if req['poison']:
         s += req['poison'] + '\n'
-    return s
+    return _layout(s, req.get('fmt'))
+
+
+def _layout(s, fmt):
+    if not fmt:
+        return s
+    if fmt == 'crlf':
+        return s.replace('\n', '\r\n')
+    if fmt == 'nofinalnl':
+        return s.rstrip('\n')
+    if fmt == 'bom':
+        return '\ufeff' + s
+    lines = s.split('\n')
+    out = []
+    for i, ln in enumerate(lines):
+        body = ln.strip()
+        is_param = bool(body) and not body.startswith(('#', '-', '*')) and ',' in body
+        if fmt == 'trailing':
+            out.append(ln + '  \t' if is_param else ln)
+        elif fmt == 'tabs':
+            out.append(ln.replace(', ', ',\t', 1).replace(',', ',\t', 1) if is_param and ',\t' not in ln and ', ' not in ln
+                       else ln.replace(', ', ',\t', 1) if is_param else ln)
+        else:   # comments
+            if i % 5 == 0:
+                out.append('# a comment line, with a comma')
+            if i % 7 == 3:
+                out.append('')
+            out.append(ln + ', -- a note, with a comma' if is_param and i % 3 == 0 and ln.count(',') == 1 else ln)
+    return '\n'.join(out)
 
 
 THEMES = ['mixed', 'cache', 'paths', 'mixed', 'faults', 'cache', 'hip']
@@ -278,13 +316,13 @@ def gen_history(cs, templates, tier, force=None):
     elif theme == 'paths':
         kinds = ['run'] * 6 + ['chdir'] * 3 + ['rewrite', 'argv', 'delete']
         entries = ['cli'] * 5 + ['main_argv', 'client', 'hip']
-        slot_tab = [0, 0, 1, 2, 3, 3]
+        slot_tab = [0, 0, 1, 2, 3, 3, 4, 5, 6]
         client_tab = [0, 0, 2, 1]
         p_neighbour = 1
     else:
         kinds = ['run', 'run', 'run', 'run', 'rewrite', 'rewrite', 'rewrite', 'chdir', 'argv', 'clock', 'delete', 'mc']
         entries = ENTRIES
-        slot_tab = [0, 0, 0, 1, 2]
+        slot_tab = [0, 0, 0, 1, 2, 4, 5, 6]
         client_tab = [0, 0, 2, 1]
         p_neighbour = 2
     if h['faulty']:
